@@ -3,7 +3,12 @@ from vf import Check, Stream, first_diff, build_harness, build_libnstd, run_exe_
 
 NV = 6
 FLAVS = ('str', 'var', 'ptr', 'xml')
-KINDS = {'str': ['-'], 'var': ['list', 'map', 'array', 'string'], 'ptr': ['plain', 'conv'], 'xml': ['element', 'text']}
+SEQ_FLAVS = FLAVS + ('strx',)            # strx: String with uncounted data (attach, literals) and the modifiers built from other calls; no Model
+KINDS = {'str': ['-'], 'var': ['list', 'map', 'array', 'string'], 'ptr': ['plain', 'conv'], 'xml': ['element', 'text'], 'strx': ['-']}
+# every mutating entry point of String (String.hpp: the non-const members) besides append(char) / detach / resize / reserve / clear / operator=
+STR_MODS = ['tolower', 'toupper', 'replace', 'charptr', 'appends', 'pluseq', 'pluseqc', 'appendp', 'appendself', 'prepends', 'prependp', 'trim']
+STRX_MODS = ['attach', 'assignlit', 'printf', 'printfself', 'join', 'replacess', 'constptr']
+TWO_VAR = ('assign', 'swap', 'assignraw', 'viaelem', 'appends', 'pluseq', 'prepends', 'vswap')
 CONC_KINDS = {'str': ['-'], 'var': ['list', 'map', 'array', 'string'], 'ptr': ['plain'], 'xml': ['element']}
 
 
@@ -20,13 +25,46 @@ def applicable(f, kind='-'):
         ops += ['assignval']
     else:
         ops += ['write', 'detach']
-        if f == 'str':
-            ops += ['resize', 'reserve']
+        if f in ('str', 'strx'):
+            ops += ['resize', 'reserve'] + STR_MODS
+        if f == 'strx':
+            ops += STRX_MODS + ['lit']
         if f == 'var':
-            ops += ['assignval']
-        if not (f == 'var' and kind == 'string') and f != 'str':
+            ops += ['assignval', 'assignscalar', 'nullk', 'vswap']
+        if not (f == 'var' and kind == 'string') and f not in ('str', 'strx'):
             ops += ['viaelem']
+    if f in ('var', 'xml'):
+        ops += ['retype']
     return ops
+
+
+def mod_op(rng, k, a, b, c):
+    """text of one of the modifier / Variant ops on variable a (second handle b, third c)"""
+    if k in ('tolower', 'toupper', 'constptr'):
+        return '%s %d' % (k, a)
+    if k in ('replace', 'charptr'):
+        return '%s %d %d %d' % (k, a, rng.randrange(1, 8), rng.randrange(1, 8))
+    if k in ('appends', 'pluseq', 'prepends', 'vswap'):
+        return '%s %d %d' % (k, a, b)
+    if k == 'pluseqc':
+        return 'pluseqc %d %d' % (a, rng.randrange(1, 8))
+    if k in ('appendp', 'prependp', 'attach', 'printf', 'printfself'):
+        return '%s %d %s' % (k, a, digits(rng, rng.choice([0, 1, 2, 3, 5, 8])))
+    if k == 'appendself':
+        return 'appendself %d %d %d' % (a, rng.choice([0, 0, 1, 2, 3, 5]), rng.choice([0, 1, 2, 3, 4, 8]))
+    if k == 'trim':
+        return 'trim %d %s' % (a, rng.choice(['7', '7', '7', '1', '4', '17', '147', '2']))
+    if k in ('assignlit', 'lit'):
+        return '%s %d %d' % (k, a, rng.randrange(3))
+    if k == 'join':
+        return 'join %d %d %d %d' % (a, b, c, rng.randrange(1, 8))
+    if k == 'replacess':
+        return 'replacess %d %s %s' % (a, digits(rng, rng.choice([1, 1, 2])), digits(rng, rng.choice([0, 1, 2, 3])))
+    if k in ('assignscalar', 'nullk'):
+        return '%s %d %d' % (k, a, rng.randrange(6))
+    if k == 'retype':
+        return 'retype %d %s' % (a, digits(rng, rng.choice([0, 1, 2, 3])))
+    raise ValueError(k)
 
 
 def gen_history(rng, f, n, nv=NV, valid=0.93, kind=None):
@@ -36,7 +74,11 @@ def gen_history(rng, f, n, nv=NV, valid=0.93, kind=None):
     ops = []
     kinds = applicable(f, kind)
     w = {'create': 2, 'null': 1, 'copy': 5, 'assign': 5, 'reset': 2, 'destroy': 3, 'swap': 3, 'fromraw': 2, 'write': 4, 'detach': 2,
-         'assignraw': 3, 'assignval': 3, 'viaelem': 3, 'resize': 3, 'reserve': 2}
+         'assignraw': 3, 'assignval': 3, 'viaelem': 3, 'resize': 3, 'reserve': 2, 'assignscalar': 2, 'nullk': 1, 'vswap': 3, 'retype': 3, 'lit': 1}
+    for k_ in STR_MODS + STRX_MODS:
+        w[k_] = 1
+    if f == 'strx':
+        w['copy'] = w['assign'] = 8
     for _ in range(n):
         k = rng.choices(kinds, [w[x] for x in kinds])[0]
         lv = [i for i in range(nv) if live[i]]
@@ -44,7 +86,7 @@ def gen_history(rng, f, n, nv=NV, valid=0.93, kind=None):
         if rng.random() > valid:
             a, b = rng.randrange(nv), rng.randrange(nv)
         else:
-            if k in ('create', 'null'):
+            if k in ('create', 'null', 'lit', 'nullk'):
                 if not dv:
                     k = 'destroy'
                     a = b = rng.choice(lv)
@@ -54,7 +96,7 @@ def gen_history(rng, f, n, nv=NV, valid=0.93, kind=None):
                 if not dv or not lv:
                     continue
                 a, b = rng.choice(dv), rng.choice(lv)
-            elif k in ('assign', 'swap', 'assignraw', 'viaelem'):
+            elif k in TWO_VAR or k == 'join':
                 if not lv:
                     continue
                 a, b = rng.choice(lv), rng.choice(lv)
@@ -72,6 +114,12 @@ def gen_history(rng, f, n, nv=NV, valid=0.93, kind=None):
         elif k == 'null':
             ops.append('null %d' % a)
             live[a] = True
+        elif k in ('lit', 'nullk'):
+            ops.append(mod_op(rng, k, a, b, b))
+            if 0 <= a < nv:
+                live[a] = True
+        elif k in STR_MODS + STRX_MODS + ['assignscalar', 'vswap', 'retype']:
+            ops.append(mod_op(rng, k, a, b, rng.choice([i for i in range(nv) if live[i]] or [a])))
         elif k in ('copy', 'fromraw'):
             ops.append('%s %d %d' % (k, a, b))
             if not live[a] and live[b]:
@@ -118,6 +166,70 @@ def small_alphabet(f, nv, kind='-'):
             if f == 'ptr' and a < b:
                 al.append('swap %d %d' % (a, b))
     return al
+
+
+# ---- every mutating entry point on a payload that another handle shares ------------------------------
+def mut_letters(f, kind='-'):
+    """one-variable letters (format with the variable), two-variable letters (format with both)"""
+    one, two = [], []
+    if f in ('str', 'strx'):
+        one = ['write %d 5', 'detach %d', 'resize %d 2', 'reserve %d 9', 'reset %d', 'tolower %d', 'toupper %d', 'replace %d 4 1', 'replace %d 1 7', 'charptr %d 5 2',
+               'pluseqc %d 3', 'appendp %d 26', 'appendp %d -', 'appendself %d 1 2', 'appendself %d 0 9', 'prependp %d 71', 'prependp %d -', 'trim %d 7', 'trim %d 14']
+        two = ['assign %d %d', 'appends %d %d', 'pluseq %d %d', 'prepends %d %d']
+        if f == 'strx':
+            one += ['attach %d 45', 'attach %d -', 'assignlit %d 2', 'assignlit %d 0', 'printf %d 62', 'printfself %d 3', 'replacess %d 14 6', 'replacess %d 5 -', 'constptr %d']
+            two += ['join %d %d %%d 7']
+    elif f == 'var':
+        one = ['write %d 5', 'detach %d', 'reset %d', 'assignval %d 71', 'retype %d 3', 'retype %d -'] + ['assignscalar %%d %d' % k for k in range(6)]
+        two = ['assign %d %d', 'vswap %d %d'] + (['viaelem %d %d'] if kind != 'string' else [])
+    elif f == 'xml':
+        one = ['reset %d', 'retype %d 3', 'retype %d -'] + (['write %d 5', 'detach %d'] if kind == 'element' else ['assignval %d 71'])
+        two = ['assign %d %d'] + (['viaelem %d %d'] if kind == 'element' else [])
+    return one, two
+
+
+def fmt2(l, a, b):
+    """two-variable letter; join takes a third handle: both other variables"""
+    t = l % (a, b)
+    return t % (1 - a if a in (0, 1) else 0) if '%d' in t else t
+
+
+def mut_alphabet(f, kind, nv=2):
+    one, two = mut_letters(f, kind)
+    al = []
+    for v in range(nv):
+        al += [l % v for l in one] + ['destroy %d' % v]
+    for a in range(nv):
+        for b in range(nv):
+            al += [fmt2(l, a, b) for l in two]
+    al += ['copy 2 0', 'copy 2 1']
+    return al
+
+
+def shared_mut_cases():
+    """each mutating entry point through handle 1 while handles 0 and 2 share the payload, then through handle 0 (now shared with 2 only),
+    then again through 1 (now alone on its payload); arguments that are handles: another handle to the same payload, the handle itself,
+    a handle to another payload"""
+    t = []
+    for f in SEQ_FLAVS:
+        if f == 'ptr':
+            continue
+        for kind in KINDS[f]:
+            h = '@%s %s' % (f, kind)
+            one, two = mut_letters(f, kind)
+            for d in ('4267', '7157', '-', '1', '71234567', '777'):
+                for l in one:
+                    t.append([h, 'create 0 ' + d, 'copy 1 0', 'copy 2 0', l % 1, l % 0, l % 1, 'destroy 2', l % 0, 'destroy 0', 'destroy 1'])
+                for l in two:
+                    for (a, b) in ((1, 0), (1, 1), (0, 1), (1, 3), (3, 1)):
+                        t.append([h, 'create 0 ' + d, 'copy 1 0', 'copy 2 0', 'create 3 25', fmt2(l, a, b), fmt2(l, a, b), 'destroy 2', fmt2(l, b, a), 'destroy 0', 'destroy 1', 'destroy 3'])
+            if f == 'strx':
+                # uncounted data: a literal / attached text copied, assigned and modified
+                for l in one:
+                    t.append([h, 'lit 0 2', 'copy 1 0', 'null 2', 'assign 2 0', l % 1, l % 0, 'attach 2 4267', 'copy 3 2', l % 3, l % 2, 'assign 0 2', l % 0])
+            if f == 'var':
+                t.append([h, 'create 0 12', 'copy 1 0', 'nullk 2 2', 'copy 3 2', 'vswap 1 2', 'vswap 3 0', 'vswap 0 0', 'assign 1 3', 'write 3 4', 'assignval 2 5'])
+    return t
 
 
 # ---- concurrent cases ---------------------------------------------------------------------------
@@ -399,11 +511,15 @@ class C09(Check):
     harness_sources = ['harness/rc.cpp', 'harness/rc_nest.cpp']
     harness_link_flags = ['-Wl,--wrap=_ZN6Memory4copyEPvPKvm']      # Memory::copy out of a payload block is a trace event
     per_case_timeout = 20
-    level_text = ('Proved in Coq for the model: (sequential) for every history of create/null/copy/fromraw/assign/assignraw/assignval/reset/swap/write/detach/resize/reserve/destroy '
-                  'on String, Variant, RefCount::Ptr and Xml::Variant handles the counter of a payload equals the number of live handles referring to it, '
+    level_text = ('Proved in Coq for the model: (sequential) for every history of create/null/copy/fromraw/assign/assignraw/assignval/reset/swap/write/detach/resize/reserve/'
+                  'strmod/strcat/retype/destroy on String, Variant, RefCount::Ptr and Xml::Variant handles - strmod = ANY modifier of String that is detach(..) followed by a write into the own '
+                  'block (append, resize, reserve, toLowerCase, toUpperCase, replace(char, char), a store through operator char*, append / prepend of characters: one generic lemma for every mode), '
+                  'strcat = append / operator+= / prepend of the text of a handle that may be the target itself or share its payload, retype = the `type != T` branch of the write accessors and value '
+                  'assignments of Variant / Xml::Variant; scalar assignment to a Variant is reset, and Variant::swap, the local copy prepend keeps and the String trim assigns are histories of these '
+                  'operations over a seventh variable - the counter of a payload equals the number of live handles referring to it, '
                   'a payload is released exactly once, exactly when its last handle goes, never accessed afterwards and modified in place only while '
                   'exactly one handle refers to it, and the CONTENTS read through the handles (for Ptr: the identities of the objects) are those of the '
-                  'value-semantics Spec over whole histories (a write through one handle changes no other); (handles stored inside payloads) for every history of '
+                  'value-semantics Spec over whole histories (a write through one handle changes no other); (handles stored inside payloads: ONE member handle per object, Ptr only, sequential, no swap of member handles) for every history of '
                   'create/null/copy/assign (same-type, converting, operator=(C*))/reset/destroy over locations <variable, depth> of RefCount::Ptr handles to a pointee '
                   'type with a Ptr member - so the source of an assignment may be a handle stored inside the object the target is the last handle of, and the target '
                   'may be a member handle - the counter of an object equals the handles to it in variables plus those inside objects that exist, an object is '
@@ -412,7 +528,10 @@ class C09(Check):
                   'schedule of the interleaving machine in which threads owning distinct handles to a common payload copy, assign, swap, modify '
                   '(append / write access only / String::clear), read and drop them, each call split into its atomic increment / decrement-and-test / '
                   'plain read `ref == 1` accesses, plus completion: every schedule that lets each thread finish ends with released <-> no handle left; '
-                  'and every access trace of the implementation that the acceptor RcConc.replay accepts is a run of that machine.')
+                  'and every access trace of the implementation that the acceptor RcConc.replay accepts is a run of that machine (a trace it rejects is reported as a break of the '
+                  'model/implementation correspondence, never as a failing input: what decides the property on a concurrent run is the end state, the ledger and the sanitizers). '
+                  'NOT in the Model (no theorem; judged by the value-semantics Spec for every handle, by running the same call on a private unshared String with the same text, and by the block ledger): '
+                  'String handles on uncounted data (attach, literal constructor and their copies / assignments) and the modifiers built from other calls (printf, join, replace(String, String)).')
     level_note = ('partial: the concurrent clause is proved for the interleaving model under sequential consistency with the __sync builtins as '
                   'atomic steps (hardware/compiler memory ordering is outside the model). It is tied to the implementation on the schedules actually '
                   'run: baton-passing real threads switched at the scheduling points placed before and after every atomic operation (schedules '
@@ -438,19 +557,26 @@ class C09(Check):
                   'away). The contents read through the handles are proved equal to the value-semantics Spec for sequential histories; for the concurrent '
                   'machine they are validated by correspondence only (no theorem). "Released" for Variant / Xml::Variant payloads is observed on ALL '
                   'allocations made inside the library calls: after every operation the blocks allocated for payloads must be exactly those reachable '
-                  'from the live payloads. One payload type per case (Variant: list, map, array or string; Xml::Variant: element or text): a write access '
-                  'through the accessor of another type than the one stored (type-changing branch) is not driven; Xml::Variant text payloads have no '
-                  'write accessor (value assignment only), element payloads no value assignment. Handles stored inside payloads are modelled for '
+                  'from the live payloads; which block is a payload block is decided by provenance (the block the handle of the call refers to when the call returns), not by its size. '
+                  'One payload type per case (Variant: list, map, array or string; Xml::Variant: element or text); the type-changing branches are driven by `retype` (the write accessor of another '
+                  'type, then the value assignment of the case type: both `type != T` branches in one op, observed after the second); Xml::Variant text payloads have no '
+                  'write accessor (value assignment only), element payloads no value assignment. A Variant holding a scalar (bool, double, int, uint, int64, uint64: data inside the handle, no payload) '
+                  'is observed as a handle without payload (`-`), whatever the scalar; in kind string a scalar is cleared right after it was assigned (toString() would turn it into text). '
+                  'String cases use the characters a b c A B C and space for the markers 1-7; a call that would make a text longer than 100 characters is skipped on both sides. '
+                  'Scheduling points of the baton scheduler: before and after every __sync / __atomic read-modify-write, compare-and-swap and exchange builtin (only the add/sub ones are trace events). Handles stored inside payloads are modelled for '
                   'RefCount::Ptr (machine RcNest: a pointee type with a Ptr member, locations <variable, depth>, sequential only); its reference object is RcNest.pstep (a pointer graph without counters in which, after every operation, the objects no handle refers to are destroyed, '
                   'repeatedly; proved independent of the order of destruction), refined by the Model over whole histories; swap of member handles and handles travelling '
                   'between threads are not in that machine; '
-                  'nested Variant payloads are driven only through viaelem; String/Variant constructors from literals (uncounted inline data) are '
-                  'outside the model. The converting Ptr(const Ptr<D>&) / operator=(const Ptr<D>&) are driven in sequential cases only (kinds conv).')
+                  'nested Variant payloads are driven only through viaelem; String handles on literal / attached text (uncounted data) are driven in flavour strx, '
+                  'which has no Model (see level_text); objects with two or more member handles are outside RcNest. The converting Ptr(const Ptr<D>&) / operator=(const Ptr<D>&) are driven in sequential cases only (kinds conv).')
     technique = ('machine-checked proof (Coq 8.16) about an executable model (sequential handle/block machine + machine with handles inside payloads + interleaving machine + trace acceptor) + differential '
                  'correspondence (ASan/UBSan): sequential histories op by op with contents and a ledger of every allocation, concurrent scenarios with real '
                  'threads under a baton-passing scheduler hooked at every atomic operation whose recorded access trace is replayed step by step through the '
                  'extracted machine, and free-running threads compared on their end state')
-    rule = ('sequential cases = handle histories (create/null/copy/fromraw/assign/assignraw/assignval/reset/swap/write/detach/destroy) on 6 variables of one '
+    rule = ('sequential cases = handle histories (create/null/copy/fromraw/assign/assignraw/assignval/reset/swap/write/detach/resize/reserve/destroy, every other modifier of String: '
+            'toLowerCase, toUpperCase, replace(char, char), operator char*, append(String | const char*, n | into the own text), operator+=, prepend(String | const char*, n), trim; Variant: scalar '
+            'assignment and construction (6 overloads), swap, type-changing accessor / value assignment; flavour strx also attach, literal constructor / assignment, printf, join, '
+            'replace(String, String), operator const char*) on 6 variables of one '
             'handle type (String; Variant holding a list, map, array or string; RefCount::Ptr<T>, plain or through Ptr<Derived>; Xml::Variant holding an element '
             'or a text); non-trivial when some payload was shared by two live variables (a reference counter of 2 or more was observed) and at least one '
             'payload was released. nest cases = histories over 4 RefCount::Ptr variables and their chains (pointee with a Ptr member, same-type or derived member type): '
@@ -599,6 +725,7 @@ class C09(Check):
         'live': 'LIVE-VS-HANDLES live payload blocks differ from the number of distinct payloads the live handles refer to ... ',
         'aux':  'PAYLOAD-PARTS   blocks allocated for payloads are not exactly those reachable from the live payloads ........ ',
         'after': 'LEAK-AFTER-JOIN blocks still allocated after every thread handle was destroyed ........................... ',
+        'priv': 'SHARED-VS-PRIVATE a modifier gives another text on a handle of the case than on a private, unshared String with the same text ',
     }
 
     def judge(self, cases, impl_obs, spec_obs):
@@ -620,6 +747,10 @@ class C09(Check):
                 livecnt = int(m.group(1))
                 if m.group(3) not in (None, 'ok'):
                     fails.append((i, k, self.TAGS['aux'] + '`%s`' % sec[1]))
+                    break
+                pv = [x for x in sec[4:] if x.startswith('priv=')]
+                if pv and pv[0] != 'priv=ok':
+                    fails.append((i, k, self.TAGS['priv'] + '`%s | %s`' % (sec[0], pv[0])))
                     break
                 if sec[0] == 'end':
                     if livecnt != 0:
@@ -667,14 +798,14 @@ class C09(Check):
     def streams(self, tier, rng):
         thorough = tier == 'thorough'
         out = []
-        for f in FLAVS:
+        for f in SEQ_FLAVS:
             cases = [gen_history(rng, f, rng.randrange(4, 45)) for _ in range(2500 if thorough else 400)]
             out.append(Stream('hist_' + f, cases, note='mostly valid random histories, 6 variables, payload type drawn per case'))
-        cases = [gen_history(rng, rng.choice(FLAVS), rng.randrange(4, 30), valid=0.5) for _ in range(1500 if thorough else 300)]
+        cases = [gen_history(rng, rng.choice(SEQ_FLAVS), rng.randrange(4, 30), valid=0.5) for _ in range(1500 if thorough else 300)]
         out.append(Stream('malformed', cases, note='half of the ops ignore which variables are constructed (both sides skip them)'))
         # boundary: few variables so that counts go up and down through 1 and 2 all the time
         cases = []
-        for f in FLAVS:
+        for f in SEQ_FLAVS:
             for _ in range(1500 if thorough else 250):
                 cases.append(gen_history(rng, f, rng.randrange(6, 30), nv=rng.choice([2, 3]), valid=0.97))
         cases += self.targeted()
@@ -691,6 +822,24 @@ class C09(Check):
                     cases.append(['@%s %s' % (f, kind), 'create 0 123'] + list(tup))
             out.append(Stream('exh_' + f, cases, exhaustive=False,
                               note='every sequence of %d ops over 2 variables after `create 0 123` (%s)' % (depth, '; '.join(notes))))
+        # every mutating entry point of String / Variant / Xml::Variant on a payload that another handle shares
+        out.append(Stream('shared_mut', shared_mut_cases(), note='each mutating entry point (String: every non-const member; Variant: every assignment overload, swap, '
+                          'the type-changing accessor and value assignment; Xml::Variant: both type-changing branches) through one of three handles that share a payload, '
+                          'then through the others; handle arguments: same payload, the handle itself, another payload; literal / attached text (strx)'))
+        cases = []
+        notes = []
+        mdepth = 3 if thorough else 2
+        for f in SEQ_FLAVS:
+            if f == 'ptr':
+                continue
+            for kind in KINDS[f]:
+                al = mut_alphabet(f, kind)
+                notes.append('%s %s: %d' % (f, kind, len(al)))
+                for d in (('4267', '71') if thorough else ('4267',)):
+                    for tup in itertools.product(al, repeat=mdepth):
+                        cases.append(['@%s %s' % (f, kind), 'create 0 ' + d, 'copy 1 0'] + list(tup))
+        out.append(Stream('exh_mut', cases, exhaustive=False,
+                          note='every sequence of %d mutating ops / destroy / copy over two handles that share a payload (letters: %s)' % (mdepth, '; '.join(notes))))
         # handles stored inside payloads
         cases = [gen_nest(rng, rng.randrange(6, 40)) for _ in range(6000 if thorough else 1500)]
         cases += [gen_nest(rng, rng.randrange(6, 30), nv=2, valid=0.97) for _ in range(3000 if thorough else 700)]
